@@ -3863,6 +3863,17 @@ class ScoreVariant(object):
 
                     # make a copy of the object
                     o_copy = copy(o)
+                    if isinstance(o_copy, GenericNote):
+                        # the (shallow) copy must not share its lists of slurs
+                        # and tuplets with the original: they are appended to
+                        # when the references are replaced below
+                        for attr in (
+                            "slur_stops",
+                            "slur_starts",
+                            "tuplet_stops",
+                            "tuplet_starts",
+                        ):
+                            setattr(o_copy, attr, list(getattr(o, attr)))
                     # add it to the set of new objects (for which the refs will
                     # be replaced)
                     o_new.add(o_copy)
